@@ -2,6 +2,7 @@ package varmq
 
 import (
 	"context"
+	"math"
 	"time"
 
 	"github.com/goptics/varmq/utils"
@@ -148,6 +149,13 @@ func withSafeConcurrency(concurrency int) uint32 {
 	if concurrency < 1 {
 		return utils.Cpus()
 	}
+
+	// the limit is kept in 32 bits: a larger value must not wrap around (a
+	// multiple of 2^32 would become a limit of 0 and stall the worker)
+	if uint64(concurrency) > math.MaxUint32 {
+		return math.MaxUint32
+	}
+
 	return uint32(concurrency)
 }
 
